@@ -708,9 +708,11 @@ def run(ck):
         "Part D: cartesian product d{1,2} x n{3,6} x design x hyper-parameter pattern{unit,aniso,short} x noise x mean{Constant,Linear} x 3 query points x "
         "acquisition{EI x z-lattice, UCB kappa{2,0}, MaxVariance}; a tag is one (acquisition, GP configuration, query, z) compared with all oracles. "
         "Part C: every sequence of length <= 3 over {propose(bfgs), propose(diffev), add_evaluation} (40 histories per configuration, each rebuilt and replayed "
-        "on fresh objects) x d{1,2} x acquisition x start script over {0,1/2,1-} x y_err{no,yes} x (bounds layout, input array form); states = distinct (data, pending "
-        "proposal) reached, transitions = calls whose post-state was checked."
+        "on fresh objects) x d{1,2} x acquisition x start script over {0,1/2,1-} x y_err{no,yes} x (bounds layout, input array form) - the quick tier takes a seed-rotated "
+        "slice of that configuration product (15 configurations), the thorough tier all of it (320); states = distinct (data, pending proposal) reached, "
+        "transitions = calls whose post-state was checked."
     )
-    ck.assume("continuous inputs are represented by the listed finite lattice (d<=2, n<=6, SquaredExponential kernel, z in [-40, 8]); query points at which the mean constant cannot steer z or whose variance is below resolution are skipped and counted")
+    ck.assume("continuous inputs are represented by the listed finite lattice (d<=2, n<=6, SquaredExponential kernel, z in [-40, 8]); z is steered through public inputs only (the mean-function constant, or inside the data hull the value of the incumbent data point); targets above the ceiling reachable inside the hull and points whose variance is below resolution are skipped and counted")
+    ck.assume("ExpectedImprovement accuracy: the far-tail form's rounding error everywhere, and additionally the documented form sigma(z F + P) evaluated in doubles wherever that form's own error is below 1e-10 relative (z >~ -3.2); the location of the switch is not prescribed")
     ck.assume("scipy's differential_evolution draws from numpy's global RandomState, which is seeded per call; for it only 'the proposal lies in the bounds' and the data/incumbent invariants are claimed. The random starts of the bfgs route (numpy.random.random imported by name into inference.gp.acquisition and inference.gp.regression) are scripted: every call returns the constant 0, 1/2 or 1-, or cycles through them")
     ck.assume("add_evaluation adds the pending proposal (the object propose_evaluation returned) when there is one, else the next point of a fixed menu in rotating input forms (float, (d,), (1,d), 0-d); y from a fixed deterministic objective")
